@@ -492,6 +492,10 @@ class Graph(object):
             # Apply the updates
             update_start_time = time.time()
             for v in self._vertices:
+                # A fixed vertex is never updated, whatever the linear solve returned (e.g., NaNs for a singular system)
+                if v.gradient_index in self._fixed_gradient_indices:
+                    continue
+
                 # fmt: off
                 v.pose += dx[v.gradient_index: v.gradient_index + v.pose.COMPACT_DIMENSIONALITY]
                 # fmt: on
